@@ -74,14 +74,17 @@ class Handshake:
         for name, value in headers:
             name = name.lower()
             try:
+                # The lists may be split over several headers
                 if name == b"connection":
-                    self.connection_tokens = split_comma_header(value)
+                    self.connection_tokens = (self.connection_tokens or []) + split_comma_header(
+                        value
+                    )
                 elif name == b"sec-websocket-extensions":
-                    self.extensions = split_comma_header(value)
+                    self.extensions = (self.extensions or []) + split_comma_header(value)
                 elif name == b"sec-websocket-key":
                     self.key = value
                 elif name == b"sec-websocket-protocol":
-                    self.subprotocols = split_comma_header(value)
+                    self.subprotocols = (self.subprotocols or []) + split_comma_header(value)
                 elif name == b"sec-websocket-version":
                     self.version = value
                 elif name == b"upgrade":
@@ -142,7 +145,7 @@ class Handshake:
             status_code = 101
 
         for name, value in additional_headers:
-            if b"sec-websocket-protocol" == name or name.startswith(b":"):
+            if b"sec-websocket-protocol" == name.strip().lower() or name.startswith(b":"):
                 raise Exception(f"Invalid additional header, {name.decode()}")
 
             headers.append((name, value))
